@@ -161,20 +161,17 @@ func (pt *PolyformTexture) equal(other *PolyformTexture) bool {
 		return false
 	}
 
-	if pt.Sampler == other.Sampler {
-		return true
-	} else if pt.Sampler == nil || other.Sampler == nil {
+	if len(pt.Extensions) != len(other.Extensions) {
 		return false
 	}
 
-	if pt.Sampler.MagFilter != other.Sampler.MagFilter ||
-		pt.Sampler.MinFilter != other.Sampler.MinFilter ||
-		pt.Sampler.WrapS != other.Sampler.WrapS ||
-		pt.Sampler.WrapT != other.Sampler.WrapT {
-		return false
+	for i, ext := range pt.Extensions {
+		if ext != other.Extensions[i] {
+			return false
+		}
 	}
 
-	return true
+	return pt.Sampler.equal(other.Sampler)
 }
 
 func (pt *PolyformNormal) equal(other *PolyformNormal) bool {
